@@ -19,8 +19,14 @@ PROPS = {
     "C03": dict(claimed=False, theorems=[], rule="", assumptions=[]),
     "C11": dict(claimed=False, theorems=[], rule="", assumptions=[]),
     "C16": dict(claimed=False, theorems=[], rule="", assumptions=[]),
-    "C04": dict(claimed=False, theorems=[], rule="", assumptions=[]),
-    "C05": dict(claimed=False, theorems=[], rule="", assumptions=[]),
+    "C04": dict(
+        theorems=["C04_accepted_respects_every_prohibition", "C04_rejected_means_error_and_nil_middleware", "C04_rejected_reconfigure_keeps_state", "C04_doc_ok_iff_no_violation"],
+        rule="Config values assembled from labelled atoms: every defective atom alone on an otherwise valid configuration (origins, methods, request/response header names), all boundary integers, the full cross product of the five boolean switches x 12 pattern kinds x {alone, with '*', with an insecure pattern}, then random mixes of valid atoms, atoms with one named defect and junk in every list position (2/3) and configurations valid by construction (1/3); non-trivial = every case (each reaches a validation verdict); distinct = hash of the Config and the observed verdict",
+        assumptions=["oracles ace_ok / ip6 / is_psl: theorems hold for every such function; the harness records the real libraries' answers per case"]),
+    "C05": dict(
+        theorems=["C05_valid_accepted", "C05_all_violations_reported", "C05_validate_flatten", "C05_message_prefix", "C05_non_messages", "C05_forbidden_value_as_supplied"],
+        rule="same family as C04; observed: the multiset of (error type, Value, Type, Reason, bounds) yielded by cfgerrors.All, the Go-side check that every error is a non-nil pointer to an exported cfgerrors type whose message starts with 'cors: ', nil-ness of the *Middleware, agreement of Reconfigure with NewMiddleware; non-trivial = every case",
+        assumptions=["oracles as for C04", "the Reason of an unacceptable origin pattern (invalid vs prohibited) is taken from the pattern parser, whose grammar is the subject of C13"]),
     "C10": dict(claimed=False, theorems=[], rule="", assumptions=[]),
     "C02": dict(claimed=False, theorems=[], rule="", assumptions=[]),
     "C08": dict(claimed=False, theorems=[], rule="", assumptions=[]),
@@ -28,4 +34,8 @@ PROPS = {
     "C06": dict(claimed=False, theorems=[], rule="", assumptions=[]),
     "C13": dict(claimed=False, theorems=[], rule="", assumptions=[]),
     "C15": dict(claimed=False, theorems=[], rule="", assumptions=[]),
+    "C07": dict(claimed=False, race_prop="C07R", theorems=[], rule="", assumptions=[]),
+    "C12": dict(claimed=False, theorems=[], rule="", assumptions=[]),
+    "C17": dict(claimed=False, theorems=[], rule="", assumptions=[]),
+    "C18": dict(claimed=False, theorems=[], rule="", assumptions=[]),
 }
